@@ -16,7 +16,13 @@ import (
 )
 
 func init() {
-	core.Register(core.Check{ID: "C09", Level: "exploration", Run: func(c *core.Ctx) { runC09(c); historyPass(c, "C09"); reentrancyPass(c, "C09"); arch386Pass(c, "C09") }})
+	core.Register(core.Check{ID: "C09", Level: "exploration", Run: func(c *core.Ctx) {
+		waitArch := background(func() { arch386Pass(c, "C09") })
+		runC09(c)
+		historyPass(c, "C09")
+		reentrancyPass(c, "C09")
+		waitArch()
+	}})
 }
 
 func runC09(c *core.Ctx) {
